@@ -355,6 +355,29 @@ func TestCheck(t *testing.T) {
 		}
 	}
 	if r.Replay != nil {
+		var fam struct {
+			Family string `json:"family"`
+		}
+		r.DecodeReplay(&fam)
+		if fam.Family == "forced-client-cert" {
+			var fc ForcedCase
+			r.DecodeReplay(&fc)
+			var k, d string
+			if strings.HasPrefix(fc.Endpoint, "real-") {
+				k, d = executeRealForced(fc)
+				if k == "inconclusive" {
+					r.Inconclusive(fc.String() + ": " + d)
+					return
+				}
+			} else {
+				k, d = executeForced(t, fc)
+			}
+			r.Eval(1)
+			if k != "" && k != "setup" {
+				r.Fail(k, fmt.Sprintf("%s: %s", fc, d), 3, fc)
+			}
+			return
+		}
 		var c Case
 		r.DecodeReplay(&c)
 		if strings.HasPrefix(c.UDP, "real-upstream:") {
@@ -405,6 +428,7 @@ func TestCheck(t *testing.T) {
 		}
 		idx++
 	}
+	forcedCertCases(t, r, idx+100000)
 	for _, c := range realUpstreamCases(r.Thorough()) {
 		if r.Mine(idx) {
 			k, d := executeRealUpstream(c)
